@@ -3164,6 +3164,35 @@ func ruleP9(c *an.Ctx) {
 				}
 			}
 			return ""
+		case *ssa.Parameter:
+			// a count handed in: every caller's argument
+			fn := x.Parent()
+			idx := -1
+			for i, q := range fn.Params {
+				if q == x {
+					idx = i
+				}
+			}
+			callers := p.Callers(fn)
+			if idx < 0 || len(callers) == 0 {
+				return "count parameter " + x.Name() + " of " + an.FnName(fn) + " has no visible callers"
+			}
+			for _, sites := range callers {
+				for _, s := range sites {
+					args := s.Common().Args
+					k := idx
+					if s.Common().IsInvoke() {
+						k = idx - 1
+					}
+					if k < 0 || k >= len(args) {
+						return "count argument not found at a call of " + an.FnName(fn)
+					}
+					if r := nonNeg(args[k], d+1); r != "" {
+						return r
+					}
+				}
+			}
+			return ""
 		}
 		return "count of unknown origin"
 	}
@@ -3629,6 +3658,19 @@ func ruleI9(c *an.Ctx) {
 			if strings.HasPrefix(h.Name(), "parseHex") {
 				return true
 			}
+			// a helper of the package all of whose returns are such arithmetic (hexRune16(b))
+			if h.Pkg == root.Pkg && len(h.Blocks) > 0 && h != root {
+				okAll, cnt := true, 0
+				an.Instrs(h, func(in ssa.Instruction) {
+					if r, isR := in.(*ssa.Return); isR && len(r.Results) == 1 {
+						cnt++
+						if !pureHex(r.Results[0], d+2) {
+							okAll = false
+						}
+					}
+				})
+				return okAll && cnt > 0
+			}
 		}
 		return false
 	}
@@ -3677,13 +3719,11 @@ func ruleI9(c *an.Ctx) {
 		return
 	}
 	fam := map[*ssa.Function]bool{root: true}
-	an.Instrs(root, func(in ssa.Instruction) {
-		if cl, ok := in.(*ssa.Call); ok {
-			if h := cl.Call.StaticCallee(); h != nil && h.Blocks != nil && h.Pkg == root.Pkg {
-				fam[h] = true
-			}
+	for _, g := range familyOf(p, root, 2) {
+		if g.Pkg == root.Pkg && g.Blocks != nil {
+			fam[g] = true
 		}
-	})
+	}
 	n := 0
 	var famNames []string
 	byName := map[string]*ssa.Function{}
